@@ -600,6 +600,17 @@ func (c *Controller) HandlePeerBlock(msg *lib.BlockMessage, syncing bool) (*lib.
 		}
 	}
 	if !syncing || qc.Header.Height%CheckpointFrequency == 0 {
+		// the certificate names the root height whose committee signed it: a root height from before the one this chain last
+		// recorded selects a 'historical committee' (validators that may hold no voting power anymore)
+		data, e := c.LoadCommitteeData()
+		if e != nil {
+			// exit with error
+			return nil, e
+		}
+		if qc.Header.RootHeight < data.LastRootHeightUpdated {
+			// exit with error
+			return nil, lib.ErrInvalidQCRootChainHeight()
+		}
 		// load the committee from the root chain using the root height embedded in the certificate message
 		v, err := c.Consensus.LoadCommittee(c.LoadRootChainId(qc.Header.Height), qc.Header.RootHeight)
 		if err != nil {
